@@ -277,3 +277,140 @@ Proof. vm_compute. split; reflexivity. Qed.
 Example ex_unfixed_oob :
   hw_out (handler_write false 4 [1;2;3;4;5;10]%N) = [Init 1; Init 2; Init 3; Init 0; Oob; Oob]%N.
 Proof. vm_compute. reflexivity. Qed.
+
+(* ------------------------------------------------------------------ *)
+(* histories with level changes: the handler level is live state, the logger threshold
+   lowest_log_level is a snapshot that only add_handler updates *)
+
+Inductive hop :=
+  | HAdd (h : handler)                              (* add_handler *)
+  | HSet (i : nat) (lv : Z)                         (* muggle_log_handler_set_level on handler i *)
+  | HLog (level : Z) (id : nat) (text : list byte). (* a log call *)
+
+Definition hstep (L : levels) (lg : logger) (o : hop) : logger :=
+  match o with
+  | HAdd h => fst (add_handler L lg h)
+  | HSet i lv => set_level lg i lv
+  | HLog _ _ _ => lg
+  end.
+Definition hrun (L : levels) (ops : list hop) : logger := fold_left (hstep L) ops (logger_init L).
+
+(* as the code computes it, for EVERY history: a call reaches handler i iff it passes the
+   snapshot test of the logger and the handler's current level test *)
+Lemma filter_as_coded format L limit fixed lg level id text i h :
+  nth_error (lg_handlers lg) i = Some h ->
+  emits_to i (sync_log format L limit fixed lg level id text)
+  = if (lg_lowest lg <=? level) && (h_level h <=? level) then 1%nat else 0%nat.
+Proof.
+  intros Hnth. unfold sync_log, logger_write.
+  destruct (Z.gtb_spec (lg_lowest lg) level) as [Hgt|Hgt].
+  - destruct (Z.leb_spec (lg_lowest lg) level); [lia|reflexivity].
+  - rewrite logger_write_from_count. rewrite Nat.sub_0_r, Hnth. simpl.
+    rewrite should_write_leb. destruct (Z.leb_spec (lg_lowest lg) level); [reflexivity|lia].
+Qed.
+
+(* known class (finding stale-lowest-level): some set_level lowers an attached handler's level
+   below the logger's snapshot *)
+Fixpoint in_stale_class (L : levels) (lg : logger) (ops : list hop) : bool :=
+  match ops with
+  | [] => false
+  | o :: r =>
+    (match o with
+     | HSet i lv => match nth_error (lg_handlers lg) i with
+                    | Some _ => lv <? lg_lowest lg
+                    | None => false
+                    end
+     | _ => false
+     end) || in_stale_class L (hstep L lg o) r
+  end.
+
+Lemma set_nth_level_in hs : forall i lv h', In h' (set_nth_level hs i lv) ->
+  In h' hs \/ (h_level h' = lv /\ exists h0, nth_error hs i = Some h0).
+Proof.
+  induction hs as [|h r IH]; intros i lv h' Hin; simpl in *; [contradiction|].
+  destruct i as [|j]; simpl in Hin.
+  - destruct Hin as [<-|Hin]; [right; simpl; eauto|left; right; exact Hin].
+  - destruct Hin as [<-|Hin]; [left; left; reflexivity|].
+    destruct (IH j lv h' Hin) as [H|H]; [left; right; exact H|right; exact H].
+Qed.
+
+Lemma set_nth_level_none hs : forall i lv, nth_error hs i = None -> set_nth_level hs i lv = hs.
+Proof.
+  induction hs as [|h r IH]; intros i lv Hn; simpl; [reflexivity|].
+  destruct i as [|j]; [discriminate|]. simpl in Hn. rewrite IH by exact Hn. reflexivity.
+Qed.
+
+Lemma hstep_lowest_ok L lg o : lowest_ok lg -> in_stale_class L lg [o] = false -> lowest_ok (hstep L lg o).
+Proof.
+  intros Hl Hc. destruct o as [h|i lv|level id text]; simpl in *.
+  - apply add_handler_lowest_ok. exact Hl.
+  - rewrite orb_false_r in Hc. unfold lowest_ok, set_level. simpl. intros h' Hin.
+    destruct (set_nth_level_in _ _ _ _ Hin) as [H|(Hlv & h0 & Hn)]; [apply Hl; exact H|].
+    rewrite Hn in Hc. apply Z.ltb_ge in Hc. lia.
+  - exact Hl.
+Qed.
+
+Lemma hrun_lowest_ok L : forall ops lg, lowest_ok lg -> in_stale_class L lg ops = false ->
+  lowest_ok (fold_left (hstep L) ops lg).
+Proof.
+  induction ops as [|o r IH]; intros lg Hl Hc; simpl in *; [exact Hl|].
+  apply orb_false_elim in Hc. destruct Hc as [Hc1 Hc2].
+  apply IH; [|exact Hc2]. apply hstep_lowest_ok; [exact Hl|]. simpl. rewrite Hc1. reflexivity.
+Qed.
+
+Lemma in_stale_class_app L : forall a b lg,
+  in_stale_class L lg (a ++ b) = in_stale_class L lg a || in_stale_class L (fold_left (hstep L) a lg) b.
+Proof.
+  induction a as [|o r IH]; intros b lg; simpl; [reflexivity|].
+  rewrite IH, orb_assoc. reflexivity.
+Qed.
+
+(* outside the class: every log call of the history produces exactly one line for handler i
+   iff its level is at or above that handler's level AT THE TIME OF THE CALL *)
+Theorem filter_exact_history format L limit fixed pre post level id text i h :
+  in_stale_class L (logger_init L) (pre ++ HLog level id text :: post) = false ->
+  nth_error (lg_handlers (hrun L pre)) i = Some h ->
+  emits_to i (sync_log format L limit fixed (hrun L pre) level id text)
+  = if h_level h <=? level then 1%nat else 0%nat.
+Proof.
+  intros Hc Hn. rewrite in_stale_class_app in Hc. apply orb_false_elim in Hc. destruct Hc as [Hc _].
+  apply filter_exact_gen; [|exact Hn].
+  apply hrun_lowest_ok; [intros h0 []|exact Hc].
+Qed.
+
+(* inside the class the property fails: the handler is lowered to DEBUG after it was attached at
+   INFO; a DEBUG call is at the handler's level but is dropped by the stale snapshot *)
+Definition stale_witness : list hop :=
+  [HAdd {| h_kind := HCap; h_level := 512; h_fmt := 0 |}; HSet 0 256].
+
+Lemma stale_refuted :
+  let L := {| lv_warning := 768; lv_error := 1024; lv_fatal := 1280; lv_max_handler := 8 |} in
+  in_stale_class L (logger_init L) (stale_witness ++ [HLog 256 0 []]) = true /\
+  exists h, nth_error (lg_handlers (hrun L stale_witness)) 0 = Some h /\ h_level h <=? 256 = true /\
+  emits_to 0 (sync_log (fun _ m => m_payload m) L 16 true (hrun L stale_witness) 256 0 []) = 0%nat.
+Proof. simpl. split; [reflexivity|]. eexists. split; [reflexivity|]. split; reflexivity. Qed.
+
+(* non-vacuity of the history theorem: raise after add (the single-handler case), a level above
+   FATAL, a lowering that stays at or above the snapshot *)
+Example ex_history :
+  let L := {| lv_warning := 768; lv_error := 1024; lv_fatal := 1280; lv_max_handler := 8 |} in
+  let pre := [HAdd {| h_kind := HCap; h_level := 256; h_fmt := 0 |}; HSet 0 1024; HLog 512 0 []; HSet 0 300] in
+  in_stale_class L (logger_init L) (pre ++ [HLog 512 1 []]) = false /\
+  emits_to 0 (sync_log (fun _ m => m_payload m) L 16 true (hrun L (firstn 2 pre)) 512 0 []) = 0%nat /\
+  emits_to 0 (sync_log (fun _ m => m_payload m) L 16 true (hrun L pre) 512 1 []) = 1%nat.
+Proof. vm_compute. repeat split; reflexivity. Qed.
+
+(* the same witness for any level table with INFO below FATAL and room for one handler *)
+Lemma stale_refuted_gen L : (512 <? lv_fatal L) = true -> Nat.leb 1 (lv_max_handler L) = true ->
+  in_stale_class L (logger_init L) (stale_witness ++ [HLog 256 0 []]) = true /\
+  exists h, nth_error (lg_handlers (hrun L stale_witness)) 0 = Some h /\ h_level h <=? 256 = true /\
+  forall format limit fixed,
+    emits_to 0 (sync_log format L limit fixed (hrun L stale_witness) 256 0 []) = 0%nat.
+Proof.
+  intros Hf Hm. apply Z.ltb_lt in Hf. apply Nat.leb_le in Hm.
+  unfold stale_witness, hrun. simpl. unfold add_handler. simpl.
+  assert (Nat.leb (lv_max_handler L) 0 = false) as -> by (apply Nat.leb_gt; lia).
+  simpl. assert (512 <? lv_fatal L = true) as -> by (apply Z.ltb_lt; lia). simpl.
+  split; [reflexivity|]. eexists. split; [reflexivity|]. split; [reflexivity|].
+  intros format limit fixed. unfold sync_log. simpl. reflexivity.
+Qed.
